@@ -1,5 +1,6 @@
 # C09 - NMEA group function (PGN 126208) requests and commands are answered and take effect:
 # generator, independent oracle (reference layouts in c09_gen.py + the property text), correspondence of the NODEGF model family.
+from nodesim import own_addr
 import copy
 import random
 import vlib
@@ -174,7 +175,7 @@ def gen(seed, tier):
         blocks = []
         for _ in range(6):
             i = r.randrange(ndev)
-            me = src0 + i
+            me = own_addr(src0, i)
             y = r.random()
             if y < 0.45:
                 pairs = [(f, [r.randrange(256)]) for f in r.sample([3, 4, 8, 3, 8, 5, 1], r.choice([1, 1, 2, 3]))]
@@ -568,7 +569,7 @@ def oracle(case, res):
     if any(o and o[0] in ('A', 'S', 'C', 'H', 'F') for o in ops) or cfg.get('cold') or cfg.get('q', 40) < 40:
         return None               # the property's premises (accepting driver, room in the queue, claimed addresses) are the generator's business
     ndev, src0, mode = cfg['ndev'], cfg['src'], cfg['mode']
-    own = [(src0 + i) & 255 for i in range(ndev)]
+    own = [own_addr(src0, i) for i in range(ndev)]
     st = fresh_state(ndev, bool(cfg.get('noconf')))
     tainted = set()
     soft = []                      # failures that are listed known findings: recorded, the implementation's behaviour is adopted, checking goes on
